@@ -148,6 +148,18 @@ def withSpec (S : Schema) (w : List String) (k : Bytes â†’ List Trait â†’ Msg â†
           | .ok msg => k mt ts msg
   | [] => "bad-op"
 
+/-- the one preamble shape the model does not follow: BeginString and BodyLength tokenise, the MsgType field does not (no SOH
+before the end of input, or over-long): `extract_header` then returns the offset after BodyLength and the factory goes on with the
+partial MsgType text left in its buffer.  (For a schema with mandatory header fields the outcome is always an exception.) -/
+def msgTypeUnterminated (b : Bytes) : Bool :=
+  match extractElement b with
+  | some (t1, _, r1) =>
+    t1.head? == some 56 &&
+    (match extractElementCap Gen.maxMsgTypeFieldLen Gen.maxMsgTypeFieldLen r1 with
+     | some (t2, _, r2) => t2.head? == some 57 && (extractElementCap Gen.maxMsgTypeFieldLen Gen.maxMsgTypeFieldLen r2).isNone
+     | none => false)
+  | none => false
+
 def step (line : String) : String :=
   let S := utest
   match Drivers.words line with
@@ -163,6 +175,7 @@ def step (line : String) : String :=
     match Drivers.unhex h with
     | none => "bad-op"
     | some raw =>
+      if msgTypeUnterminated raw then "UNMODELLED" else
       match factory S (mode == "p") raw with
       | .error e => decErr e
       | .ok d => "ok " ++ dumpMsg d ++ " re=" ++ reencode S d
@@ -170,6 +183,7 @@ def step (line : String) : String :=
     match Drivers.unhex h with
     | none => "bad-op"
     | some raw =>
+      if msgTypeUnterminated raw then "UNMODELLED" else
       match factory S (mode == "p") raw with
       | .error e => decErr e
       | .ok d => "ok " ++ dumpMsg d
